@@ -63,8 +63,8 @@ PROPS = {
                  "(incl. 300-iteration log and 150000-iteration power series)",
  },
  "C14": {
-  "modules": ["OsmoVerif.Props.C14", "OsmoVerif.Props.C14Mono", "OsmoVerif.Props.C14RoundTrip"],
-  "min_theorems": 38,
+  "modules": ["OsmoVerif.Props.C14", "OsmoVerif.Props.C14Mono", "OsmoVerif.Props.C14RoundTrip", "OsmoVerif.Props.TieGenCLTick", "OsmoVerif.Props.TieGenCLTickOps"],
+  "min_theorems": 47,
   "fingerprints": ["CL.*"],
   "engines": [{"name": "tick", "kind": "pure", "n": {"quick": 60000, "thorough": 400000}, "shards": {"quick": 4, "thorough": 4},
                "env": {"thorough": {"VERIF_TICK_SWEEP": "1", "VERIF_TICK_SWEEP_STRIDE": "61"}}}],
@@ -127,8 +127,8 @@ PROPS = {
                  "leaf level proved right, internal levels refuted by witnesses.",
  },
  "C17": {
-  "modules": ["OsmoVerif.Props.C17"],
-  "min_theorems": 33,
+  "modules": ["OsmoVerif.Props.C17", "OsmoVerif.Props.TieGenEpochsOps"],
+  "min_theorems": 45,
   "fingerprints": ["Epochs.*"],
   "engines": [{"name": "epochs", "kind": "pure", "n": {"quick": 24000, "thorough": 250000}, "shards": {"quick": 4, "thorough": 16}}],
   "rule": "histories of reset k (0-4 scripted subscribers) + 1-4 timers (durations 1ns..1 week, negative durations, zero start time, "
@@ -155,8 +155,8 @@ PROPS = {
                  "ApplyFuncIfNoError by differential run incl. the partial state of panicking blocks.",
  },
  "C15": {
-  "modules": ["OsmoVerif.Props.C15", "OsmoVerif.Props.TieGenAccum"],
-  "min_theorems": 15,
+  "modules": ["OsmoVerif.Props.C15", "OsmoVerif.Props.TieGenAccum", "OsmoVerif.Props.TieGenAccumOps"],
+  "min_theorems": 39,
   "fingerprints": ["Accum.*"],
   "engines": [{"name": "accum", "kind": "pure", "n": {"quick": 200000, "thorough": 1500000}, "shards": {"quick": 4, "thorough": 16}}],
   "rule": "independent histories (reset) of 20-250 API calls on the real accum package over a MemDB store: <=3 accumulators, <=6 position names, "
@@ -177,8 +177,8 @@ PROPS = {
                  "empty-claimed positions disappear; unknown-position / non-positive-change calls and every error are no-ops. Model tied to the Go code by byte-exact differential run.",
  },
  "C08": {
-  "modules": ["OsmoVerif.Props.C08", "OsmoVerif.Props.C08Inc", "OsmoVerif.Props.C08IncHist"],
-  "min_theorems": 92,
+  "modules": ["OsmoVerif.Props.C08", "OsmoVerif.Props.C08Inc", "OsmoVerif.Props.C08IncHist", "OsmoVerif.Props.TieGenCL", "OsmoVerif.Props.TieGenCLOps", "OsmoVerif.Props.TieGenCLTick"],
+  "min_theorems": 164,
   "fingerprints": ["CL.Keeper_*", "CL.SwapState_*"],
   "engines": [{"name": "clmath", "kind": "pure", "n": {"quick": 30000, "thorough": 400000}, "shards": {"quick": 2, "thorough": 16}},
               {"name": "cl", "kind": "app", "n": {"quick": 1500, "thorough": 20000}, "shards": {"quick": 4, "thorough": 16}, "env": NO_EXPORT_IMPORT}],
@@ -259,8 +259,8 @@ PROPS = {
                  "independent oracle: unauthorised => error and no store write (all KV/transient stores of the cache context compared with the parent).",
  },
  "C06": {
-  "modules": ["OsmoVerif.Props.C06"],
-  "min_theorems": 28,
+  "modules": ["OsmoVerif.Props.C06", "OsmoVerif.Props.TieGenLockupOps"],
+  "min_theorems": 61,
   "fingerprints": [],
   "engines": [{"name": "lockup", "kind": "app", "n": {"quick": 4000, "thorough": 40000}, "shards": {"quick": 4, "thorough": 16}, "env": NO_EXPORT_IMPORT}],
   "rule": "histories of 25-115 transactions: 3 owners (+ a stranger), 3 denominations (+ 1-2 CL share denominations cl/pool/<id> in a third of the histories; "
@@ -312,8 +312,8 @@ PROPS = {
                  "decreases); CL shares never reach an account; failed op is a no-op; model tied to the real msg server/keeper by differential run",
  },
  "C03": {
-  "modules": ["OsmoVerif.Props.C03", "OsmoVerif.Props.C03Limit", "OsmoVerif.Props.C03Dust", "OsmoVerif.Props.C03Ideal"],
-  "min_theorems": 101,
+  "modules": ["OsmoVerif.Props.C03", "OsmoVerif.Props.C03Limit", "OsmoVerif.Props.C03Dust", "OsmoVerif.Props.C03Ideal", "OsmoVerif.Props.TieGenCL", "OsmoVerif.Props.TieGenCLOps", "OsmoVerif.Props.TieGenCLTick"],
+  "min_theorems": 175,
   "fingerprints": ["CL.*"],
   "engines": [{"name": "clmath", "kind": "pure", "n": {"quick": 40000, "thorough": 500000}, "shards": {"quick": 4, "thorough": 16}},
               {"name": "cl", "kind": "app", "n": {"quick": 1500, "thorough": 20000}, "shards": {"quick": 4, "thorough": 16}, "env": NO_EXPORT_IMPORT}],
@@ -337,8 +337,8 @@ PROPS = {
   "explanation": "theorems are proved THROUGH the regenerated operator lists (Gen.CL.ops_*): a changed rounding operator in the Go source changes the model and breaks the unfolding obligations",
  },
  "C02": {
-  "modules": ["OsmoVerif.Props.C02", "OsmoVerif.Props.C02C04"],
-  "min_theorems": 50,
+  "modules": ["OsmoVerif.Props.C02", "OsmoVerif.Props.C02C04", "OsmoVerif.Props.TieGenGammKeeperOps"],
+  "min_theorems": 65,
   "fingerprints": ["Gamm.*"],
   "engines": [{"name": "gamm", "kind": "app", "n": {"quick": 2500, "thorough": 60000}, "shards": {"quick": 4, "thorough": 16}}],
   "rule": "histories of 40..140 messages on a fresh chain: 4 actors (one poor), 2..6 balancer pools (2..8 assets, weights 1:1..1:1048575, spread 0..0.5, "
@@ -358,8 +358,8 @@ PROPS = {
                  "(inside the contract), exact per-hop accounting of trader / pool / taker-fee collector, third parties untouched",
  },
  "C07": {
-  "modules": ["OsmoVerif.Props.C07"],
-  "min_theorems": 19,
+  "modules": ["OsmoVerif.Props.C07", "OsmoVerif.Props.TieGenCL", "OsmoVerif.Props.TieGenCLOps", "OsmoVerif.Props.TieGenCLTick"],
+  "min_theorems": 93,
   "fingerprints": ["CL.*"],
   "engines": [{"name": "cl", "kind": "app", "n": {"quick": 2000, "thorough": 30000}, "shards": {"quick": 4, "thorough": 16}, "env": NO_EXPORT_IMPORT}],
   "rule": "histories on one concentrated pool through the real keeper (create over overlapping/nested/abutting/gapped ranges incl. exactly on the current tick and at the range "
@@ -428,8 +428,8 @@ PROPS = {
                  "model tied to the keeper by differential run through the real app",
  },
  "C05": {
-  "modules": ["OsmoVerif.Props.C05", "OsmoVerif.Props.TieGenRouter"],
-  "min_theorems": 27,
+  "modules": ["OsmoVerif.Props.C05", "OsmoVerif.Props.TieGenRouter", "OsmoVerif.Props.TieGenRouterOps"],
+  "min_theorems": 39,
   "fingerprints": [],
   "engines": [{"name": "router", "kind": "app", "n": {"quick": 2000, "thorough": 40000}, "shards": {"quick": 4, "thorough": 16}}],
   "rule": "histories = 2-3 balancer + 1-2 stableswap + 2-3 concentrated pools (full-range + narrow positions) over 4-5 denoms, 3-10 prior swaps/joins/positions, "
@@ -505,8 +505,8 @@ PROPS = {
                  "(calc and mutating variants, post-state included); the oracle evaluates the continuum clauses with tolerances derived from powPrecision",
  },
  "C11": {
-  "modules": ["OsmoVerif.Props.C11", "OsmoVerif.Props.C11Refresh", "OsmoVerif.Props.TieGenSuperfluid"],
-  "min_theorems": 92,
+  "modules": ["OsmoVerif.Props.C11", "OsmoVerif.Props.C11Refresh", "OsmoVerif.Props.TieGenSuperfluid", "OsmoVerif.Props.TieGenSuperfluidOps"],
+  "min_theorems": 105,
   "fingerprints": [],
   "engines": [{"name": "superfluid", "kind": "app", "n": {"quick": 20000, "thorough": 200000}, "shards": {"quick": 4, "thorough": 16}, "env": NO_EXPORT_IMPORT}],
   "rule": "history 0 of every shard is the scripted witness of the recorded findings; then histories of five classes (random 25%, dust 20%, slash 25%, "
@@ -656,8 +656,8 @@ PROPS = {
                  "invariants, remaining history; probes for the audited order-dependent sites.",
  },
  "C01": {
-  "modules": ["OsmoVerif.Props.C01", "OsmoVerif.Props.C08IncHist"],
-  "min_theorems": 60,
+  "modules": ["OsmoVerif.Props.C01", "OsmoVerif.Props.C08IncHist", "OsmoVerif.Props.TieGenCL", "OsmoVerif.Props.TieGenCLOps", "OsmoVerif.Props.TieGenCLTick"],
+  "min_theorems": 134,
   "fingerprints": ["CL.*"],
   "engines": [{"name": "cl", "kind": "app", "n": {"quick": 2000, "thorough": 30000}, "shards": {"quick": 4, "thorough": 16}, "env": NO_EXPORT_IMPORT},
               {"name": "clmath", "kind": "pure", "n": {"quick": 20000, "thorough": 300000}, "shards": {"quick": 2, "thorough": 16}}],
